@@ -18,7 +18,7 @@ BOUNDS = {
              "place, append an element) on one of the objects",
     "thorough": "adds 3-call sequences and scale_xyz / translate_to_origin / fit_into_unit_cube",
 }
-OUTSIDE = "rotate (scipy Rotation.apply is compiled: no claim about rotations); flatten; attributes carried by copy(copy_attributes=True)"
+OUTSIDE = "rotate (scipy Rotation.apply is compiled: no claim about rotations); flatten; the attribute values carried by copy(copy_attributes=True)"
 ASSUMPTIONS = ["scale factors and bounding-box extents are non-zero", "coordinates are finite reals"]
 STUBS = []
 WALL_S = {"quick": 420, "thorough": 1750}
@@ -78,6 +78,17 @@ def make(sx, producer, topo, prefix="p"):
     if producer == "copy":
         src, _, P = make(sx, "literal", topo, prefix)
         return M.mesh.copy(src), [(src, P)], P
+    if producer == "copy-attributes":
+        src, _, P = make(sx, "literal", topo, prefix)
+        return M.mesh.copy(src, copy_attributes=True), [(src, P)], P
+    if producer in ("literal-int", "from_arrays-int"):
+        # coordinates stored with an integer dtype (lattice / voxel data); the transform parameters stay symbolic
+        P = [[0, 0, 0], [2, 1, 0], [1, 3, -2], [-1, 2, 5]][:V]
+        if producer == "literal-int":
+            return meshgen.build([np.array(p, dtype=np.int64) for p in P], E, F, C), [], P
+        m = M.mesh.from_arrays(np.array(P, dtype=np.int64), E=np.array(E) if E else None, F=np.array(F) if F else None,
+                               C=np.array(C) if C else None)
+        return m, [], P
     if producer == "merge-self":
         src, _, P = make(sx, "literal", topo, prefix)
         return M.mesh.merge([src, src]), [(src, P)], P + P
@@ -328,9 +339,11 @@ def obligations(tier):
            note="normalize on a triangle with symbolic coordinates (every ordering of the coordinates)"),
         Ob("transform-mixed", transforms(["literal", "merge-self"], ["poly", "tet"] if q else ["poly", "tet", "tri2"], ["translate", "scale"]),
            covers=COVERS, split=5, note="polyline / tetrahedron inputs"),
+        Ob("transform-int-coordinates", transforms(["literal-int", "from_arrays-int"], ["tri"], ["translate", "scale", "normalize", "scale_xyz"]),
+           covers=COVERS, split=4, note="coordinates stored with an integer dtype, symbolic real transform parameters"),
         Ob("concrete-histories", concrete_histories, covers=COVERS, split=4,
            note="float-array ownership/aliasing: copy / merge / boundary / reorder then translate by a vector or by one of the mesh's own vertices"),
-        Ob("edits", edits(["copy", "merge-one", "merge-self", "merge-two"], ["tri"] if q else ["tri", "tri2", "tet"]), covers=COVERS, split=6,
+        Ob("edits", edits(["copy", "copy-attributes", "merge-one", "merge-self", "merge-two"], ["tri"] if q else ["tri", "tri2", "tet"]), covers=COVERS, split=6,
            note="editing one side of a copy/merge never shows on the other"),
     ]
     if not q:
